@@ -86,7 +86,16 @@ class Gen:
 
     # ---------------------------------------------------------------- suites
     def suite(self, fxs, prefix, depth):
-        name = "s%d" % self.fresh()
+        # names are only unique among siblings: a suite may bear the name of a suite that lives under another parent
+        name = None
+        seen = self.__dict__.setdefault("_suite_seen", [])
+        if seen and self.rng.random() < self.p.get("p_dup_name", 0.2):
+            cands = [n for n, pref in seen if pref != prefix and (n, prefix) not in seen]
+            if cands:
+                name = self.rng.choice(cands)
+        if name is None:
+            name = "s%d" % self.fresh()
+        seen.append((name, prefix))
         path = prefix + name
         hooks = {"setup_suite": None, "teardown_suite": None, "setup_test": None, "teardown_test": None}
         suite_fx = [f["name"] for f in fxs if LEVEL[f["scope"]] >= 2 and not f["per_thread"]]
@@ -105,7 +114,15 @@ class Gen:
         force_empty = depth > 1 and self.chance("p_empty_suite")      # a suite left without tests and sub-suites
         ntests = 0 if force_empty else self.rng.randint(0 if depth < self.p["max_depth"] else 1, self.p["max_tests"])
         for k in range(ntests):
-            tname = "t%d" % self.fresh()
+            tname = None
+            tseen = self.__dict__.setdefault("_test_seen", [])
+            if tseen and self.rng.random() < self.p.get("p_dup_name", 0.2) * 0.75:
+                cands = [n for n, pth in tseen if pth != path and (n, path) not in tseen]
+                if cands:
+                    tname = self.rng.choice(cands)
+            if tname is None:
+                tname = "t%d" % self.fresh()
+            tseen.append((tname, path))
             args = [f["name"] for f in fxs if self.rng.random() < self.p["p_fixture_arg"] * 0.5]
             params = {}
             if self.chance("p_param"):
